@@ -481,3 +481,130 @@ Proof.
         -- apply Hg.
         -- apply (w_vec_nd st Hwf).
 Qed.
+
+Lemma grid_ok_dims st (g : entry -> tuple) S T V :
+  wf0 st ->
+  (forall e, t_pos (g e) = t_pos (e_tuple e)) -> (forall e, t_vec (g e) = t_vec (e_tuple e)) ->
+  grid_ok (map g (files_info st)) S T V ->
+  0 < S /\ 0 < T /\ 0 < V /\ length (files_info st) = V * T * S /\
+  S = length (pos_vals st) /\ V = length (vec_vals st) /\
+  (1 < S -> spacing_ok (ssort qc_leb (pos_vals st)) = true).
+Proof.
+  intros Hwf Hp Hv Hg.
+  destruct (pos_sorted st Hwf) as [HPs [HPin HPl]]. cbv zeta in *.
+  destruct (sets_for st Hwf g Hp Hv) as [SP SV].
+  eapply grid_ok_elim with (P0 := ssort qc_leb (pos_vals st)) (Vs0 := vec_vals st) in Hg;
+    try eassumption; [|apply (w_vec_nd st Hwf)].
+  destruct Hg as [_ [H1 [H2 [H3 [H4 [H5 [H6 [H7 _]]]]]]]].
+  rewrite map_length in H7.
+  repeat (split; [assumption || lia|]).
+  intros HS. apply spacing_ok_iff, H2, HS.
+Qed.
+
+Lemma grid_complete_dims st S T V :
+  wf0 st -> grid_complete (cfg_time st) (cfg_vec st) (files st) S T V ->
+  0 < S /\ 0 < T /\ 0 < V /\ length (files_info st) = V * T * S /\
+  S = length (pos_vals st) /\ V = length (vec_vals st) /\
+  (1 < S -> spacing_ok (ssort qc_leb (pos_vals st)) = true).
+Proof.
+  intros Hwf. unfold grid_complete.
+  destruct (cfg_time st || cfg_vec st) eqn:Hex.
+  - rewrite <- (explicit_tuples st Hwf Hex). apply grid_ok_dims; auto.
+  - assert (Hex' : explicit st = false) by exact Hex.
+    intros [[Hnd Hg] | [_ [k [_ [_ Hg]]]]].
+    + rewrite <- (fresh_tuples st Hwf Hex') in Hg.
+      * revert Hg. apply grid_ok_dims; auto.
+      * apply (nodup_pos_length st Hwf) in Hnd. lia.
+    + rewrite <- (guess_tuples st Hwf k Hex') in Hg. revert Hg. apply grid_ok_dims; auto.
+Qed.
+
+(** what a successful recomputation of the shape establishes *)
+Record shape_result (st st' : state) (sh : list nat) (S T V : nat) : Prop := mk_shape_result {
+  sr_S : S = length (pos_vals st);
+  sr_V : V = length (vec_vals st);
+  sr_pos : 0 < S /\ 0 < T /\ 0 < V;
+  sr_len : length (files_info st) = V * T * S;
+  sr_grid : grid_complete (cfg_time st) (cfg_vec st) (files st) S T V;
+  sr_st : exists fi2,
+      st' = with_shape (with_files st fi2) false (Some sh) /\
+      Permutation (map strip fi2) (map strip (files_info st)) /\
+      (guess_flag st (V * T) = false -> Permutation fi2 (files_info st)) /\
+      NoDup (map e_tuple fi2) /\
+      sh = shape_of (e_file (nth 0 fi2 dflt_entry)) S T V
+}.
+
+Theorem compute_shape_sound st st' sh :
+  wf0 st -> well_typed st -> compute_shape st = (st', Ok sh) ->
+  exists S T V, shape_result st st' sh S T V.
+Proof.
+  intros Hwf Hwt. unfold compute_shape.
+  destruct (grid_dims (length (files_info st)) (length (pos_vals st)) (length (vec_vals st))
+                      (ssort qc_leb (pos_vals st))) as [[nvol T]|e] eqn:Hd; [|discriminate].
+  apply grid_dims_ok in Hd. destruct Hd as [HS [HV [HT [Hn [-> Hsp]]]]].
+  destruct (pos_sorted st Hwf) as [HPs [HPin HPl]]. cbv zeta in *.
+  pose proof (order_files_spec st (ssort qc_leb (pos_vals st)) (length (pos_vals st)) T (length (vec_vals st))
+                Hwf Hwt HS HT HV Hn eq_refl HPl HPs) as Hspec.
+  destruct (order_files st (ssort qc_leb (pos_vals st)) (length (pos_vals st)) (length (vec_vals st) * T) T
+                        (length (vec_vals st))) as [fi2 r].
+  destruct Hspec as [H1 [H2 [H3 [H4 H5]]]].
+  destruct r as [[]|e]; [|discriminate].
+  intros H. injection H as <- <-.
+  exists (length (pos_vals st)), T, (length (vec_vals st)).
+  constructor; try reflexivity; try (repeat split; assumption).
+  - apply (order_cond_grid st _ T _ Hwf HS HT HV Hn eq_refl eq_refl Hsp). apply H4. reflexivity.
+  - exists fi2. split; [reflexivity|]. split; [exact H1|]. split; [exact H2|]. split; [apply H5; reflexivity | reflexivity].
+Qed.
+
+Theorem compute_shape_complete st S T V :
+  wf0 st -> well_typed st -> grid_complete (cfg_time st) (cfg_vec st) (files st) S T V ->
+  exists st' sh, compute_shape st = (st', Ok sh).
+Proof.
+  intros Hwf Hwt Hg.
+  destruct (grid_complete_dims st S T V Hwf Hg) as [HS [HT [HV [Hn [HSeq [HVeq Hsp]]]]]].
+  unfold compute_shape. rewrite <- HSeq, <- HVeq.
+  rewrite (grid_dims_complete _ S V _ T HS HV HT Hn Hsp).
+  destruct (pos_sorted st Hwf) as [HPs [HPin HPl]]. cbv zeta in *.
+  assert (HPlS : length (ssort qc_leb (pos_vals st)) = S) by lia.
+  pose proof (order_files_spec st (ssort qc_leb (pos_vals st)) S T V Hwf Hwt HS HT HV Hn HSeq HPlS HPs) as Hspec.
+  destruct (order_files st (ssort qc_leb (pos_vals st)) S (V * T) T V) as [fi2 r].
+  destruct Hspec as [_ [_ [_ [H4 _]]]].
+  assert (Hr : r = Ok tt).
+  { apply H4. apply (order_cond_grid st S T V Hwf HS HT HV Hn HSeq HVeq Hsp). exact Hg. }
+  subst r. eexists. eexists. reflexivity.
+Qed.
+
+(** a failing recomputation raises InvalidStackError and only reorders / re-keys the file list *)
+Theorem compute_shape_err st st' e :
+  wf0 st -> well_typed st -> compute_shape st = (st', Err e) ->
+  e = EInvalidStack /\
+  exists fi2, st' = with_files st fi2 /\
+    Permutation (map strip fi2) (map strip (files_info st)) /\
+    (Permutation fi2 (files_info st) \/
+     (explicit st = false /\ length (pos_vals st) < length (files_info st))).
+Proof.
+  intros Hwf Hwt. unfold compute_shape.
+  destruct (grid_dims (length (files_info st)) (length (pos_vals st)) (length (vec_vals st))
+                      (ssort qc_leb (pos_vals st))) as [[nvol T]|e0] eqn:Hd.
+  - apply grid_dims_ok in Hd. destruct Hd as [HS [HV [HT [Hn [-> Hsp]]]]].
+    destruct (pos_sorted st Hwf) as [HPs [HPin HPl]]. cbv zeta in *.
+    pose proof (order_files_spec st (ssort qc_leb (pos_vals st)) (length (pos_vals st)) T (length (vec_vals st))
+                  Hwf Hwt HS HT HV Hn eq_refl HPl HPs) as Hspec.
+    destruct (order_files st (ssort qc_leb (pos_vals st)) (length (pos_vals st)) (length (vec_vals st) * T) T
+                          (length (vec_vals st))) as [fi2 r].
+    destruct Hspec as [H1 [H2 [H3 _]]].
+    destruct r as [[]|e1]; [discriminate|].
+    intros H. injection H as <- <-.
+    split; [destruct H3 as [H3|H3]; congruence|].
+    exists fi2. split; [reflexivity|]. split; [exact H1|].
+    destruct ((1 <? length (vec_vals st) * T) && negb (cfg_time st) && negb (cfg_vec st)) eqn:Hg.
+    + right. apply andb_true_iff in Hg. destruct Hg as [Hg Hcv]. apply andb_true_iff in Hg.
+      destruct Hg as [Hnv Hct]. apply negb_true_iff in Hct, Hcv. apply Nat.ltb_lt in Hnv.
+      split; [unfold explicit; rewrite Hct, Hcv; reflexivity | nia].
+    + left. apply H2. reflexivity.
+  - intros H. injection H as <- <-. split.
+    + destruct (files_info st) as [|e1 fi] eqn:Efi.
+      * simpl in Hd. unfold grid_dims in Hd. simpl in Hd. congruence.
+      * destruct (nonempty_sets st Hwf) as [HS HV]; [rewrite Efi; discriminate|].
+        exact (grid_dims_err _ _ _ _ _ HS HV Hd).
+    + exists (files_info st). split; [destruct st; reflexivity|]. split; [reflexivity | left; reflexivity].
+Qed.
